@@ -31,14 +31,14 @@ PROPS = {
         explanation='node tests of the evaluator: eval_node_test answers `*` with "the node is an element or an attribute (or namespace) node", text() with text / CDATA / entity-reference nodes, comment() and processing-instruction() by node type, node() always, and processing-instruction(\'t\') by node type and target, for every node',
     ),
     'C12': dict(
-        standin_ops=['dom.tree_atomic'],
+        standin_ops=['dom.views_after_edits', 'dom.tree_atomic'],
         verus_units=['c13_tree'],
         level='proof',
         trusted_base=TRUSTED_VERUS,
         assumptions=[A4, A8, 'world model: the parent link of every item of the document is a ghost map on the receiver; value.remove_from_parent() is an assumed callee (the old parent forgets the item, its parent link becomes None; if the old parent is the receiver its own list loses the item); XmlAttributeValue::try_from accepts exactly text, character references and entity references; HasParent::ancestor is an assumed read-only callee',
                      'XmlDocument::delete_by_id and XmlAttribute::delete_by_id are not extracted (same shape as the element version)'],
         not_decided='the tree invariant over whole edit histories (first_child/last_child/previous_sibling/next_sibling agreement, no node beneath itself, at most one document element / document type): these quantify over the live aliasing graph; only the local steps of the two primitives on elements and attributes are decided',
-        explanation='the local steps that keep child lists and parent links in agreement: XmlElement::insert_by_id, XmlDocument::insert_by_id (with its nested helper add_or_insert) and XmlAttribute::insert_by_id either refuse and change nothing (child list, parent links) or leave the value listed exactly once under this parent with its parent link pointing here; XmlElement::delete_by_id removes exactly that child and clears its parent link, and changes nothing for an unknown id',
+        explanation='the local steps that keep child lists and parent links in agreement: XmlElement::insert_by_id, XmlDocument::insert_by_id (with its nested helper add_or_insert) and XmlAttribute::insert_by_id either refuse and change nothing (child list, parent links) or leave the value listed exactly once under this parent with its parent link pointing here; XmlElement::delete_by_id removes exactly that child and clears its parent link, and changes nothing for an unknown id; the trait defaults append / insert_before leave the id of the inserted node resolving to the very handle the child list now owns (Context.id_map), which is what parent_node() of its children goes through',
     ),
     'C10': dict(
         standin_ops=['ctx.script'],
@@ -60,7 +60,7 @@ PROPS = {
         explanation='character data only: whenever insert/delete on a text, comment or CDATA information item reports success, the stored string is still lexically valid for its node kind (no ]]> in text or CDATA, no -- in a comment and no trailing -, no < or & in text, only XML Chars), also when the offending sequence arises only from joining the edit with the existing data',
     ),
     'C14': dict(
-        standin_ops=['order.script', 'dom.order_keys'],
+        standin_ops=['order.script', 'dom.order_keys', 'dom.keys_after_edits'],
         verus_units=['c14_order'],
         level='proof',
         trusted_base=TRUSTED_VERUS,
